@@ -64,6 +64,8 @@ class World:
             "ec": K.make_ec(m.sub("ec"), "P-256"), "ec2": K.make_ec(m.sub("ec2"), "P-256", {"kid": "ec2"}),
             "rsa": K.make_rsa(m.sub("rsa"), 2048), "ed": K.make_okp(m.sub("ed"), "Ed25519"),
             "x": K.make_okp(m.sub("x"), "X25519"), "p384": K.make_ec(m.sub("p384"), "P-384"),
+            # two different peers that happen to use the same key id
+            "peerA": K.make_ec(m.sub("peerA"), "P-256", {"kid": "peer"}), "peerB": K.make_ec(m.sub("peerB"), "P-256", {"kid": "peer"}),
         }
         mt = self.mat
         # private-side objects (lazy dict view unless imported from a dict)
@@ -77,6 +79,8 @@ class World:
             "ed": OKPKey.import_key(K.pem(mt["ed"], True)),
             "x": OKPKey.import_key(K.pem(mt["x"], True)),
             "p384": ECKey.import_key(K.pem(mt["p384"], True, der=True)),
+            "peerA": JWKRegistry.import_key(rk.to_jwk(mt["peerA"], True)),
+            "peerB": JWKRegistry.import_key(rk.to_jwk(mt["peerB"], True)),
         }
         # public-side objects (separate objects, also shared between calls)
         self.p = {
@@ -85,6 +89,8 @@ class World:
             "rsa": RSAKey(mt["rsa"].pub, mt["rsa"].pub, None),
             "ed": OKPKey.import_key(K.pem(mt["ed"], False)),
             "x": OKPKey.import_key(K.pem(mt["x"], False)),
+            "peerA": JWKRegistry.import_key(rk.to_jwk(mt["peerA"].public(), False)),
+            "peerB": JWKRegistry.import_key(rk.to_jwk(mt["peerB"].public(), False)),
         }
         from joserfc.jwt import JWTClaimsRegistry
         from joserfc.rfc7797 import JWSRegistry as R7797
@@ -149,6 +155,8 @@ def prepare_inputs(w: World, label: str = "") -> None:
         i["pbes2"] = jwe.encrypt_compact({"alg": "PBES2-HS256+A128KW", "enc": "A128GCM", "p2c": 4}, b"plain-pbes2", ik["oct"], registry=w.reg["jwe-all"])
         i["gcmkw"] = jwe.encrypt_compact({"alg": "A128GCMKW", "enc": "A128GCM"}, b"plain-gcmkw", ik["oct16"], registry=w.reg["jwe-all"])
         i["1pu"] = jwe.encrypt_compact({"alg": "ECDH-1PU", "enc": "A128GCM"}, b"plain-1pu", ik["ec"], registry=w.reg_1pu, sender_key=ik["ec2"])
+        i["1pu-from-a"] = jwe.encrypt_compact({"alg": "ECDH-1PU", "enc": "A128GCM"}, b"plain-from-a", ik["ec"], registry=w.reg_1pu, sender_key=ik["peerA"])
+        i["1pu-from-b"] = jwe.encrypt_compact({"alg": "ECDH-1PU", "enc": "A128GCM"}, b"plain-from-b", ik["ec"], registry=w.reg_1pu, sender_key=ik["peerB"])
         i["jwt-jwe"] = jwt.encode({"alg": "A128KW", "enc": "A128GCM"}, {"sub": "carol", "n": 3}, ik["oct16"], registry=w.reg["jwe-all"])
         from joserfc import rfc7797 as _r7797
         i["7797json"] = _r7797.serialize_json({"protected": {"alg": "HS256", "b64": False, "crit": ["b64"]}}, "payload 7797 json", ik["oct"])
@@ -279,6 +287,12 @@ def _ops():
     @op("enc-1pu", "jwe-1pu")
     def _(w): return jwe.encrypt_compact({"alg": "ECDH-1PU+A128KW", "enc": "A128CBC-HS256"}, b"p-1pu", w.p["ec"], registry=w.reg_1pu, sender_key=w.k["ec2"])
 
+    @op("enc-1pu-to-peer-a", "jwe-1pu:peerA")
+    def _(w): return jwe.encrypt_compact({"alg": "ECDH-1PU+A128KW", "enc": "A128CBC-HS256"}, b"p-1pu", w.p["peerA"], registry=w.reg_1pu, sender_key=w.k["ec2"])
+
+    @op("enc-1pu-to-peer-b", "jwe-1pu:peerB")
+    def _(w): return jwe.encrypt_compact({"alg": "ECDH-1PU+A128KW", "enc": "A128CBC-HS256"}, b"p-1pu", w.p["peerB"], registry=w.reg_1pu, sender_key=w.k["ec2"])
+
     @op("jwt-encode-jwe", "jwe")
     def _(w): return jwt.encode({"alg": "A128KW", "enc": "A128GCM"}, {"sub": "dave"}, w.k["oct16"], registry=w.reg["jwe-all"])
 
@@ -328,6 +342,9 @@ def _ops():
     cons("dec-pbes2", lambda w: jwe.decrypt_compact(w.inputs["pbes2"], w.k["oct"], registry=w.reg["jwe-all"]).plaintext)
     cons("dec-gcmkw", lambda w: jwe.decrypt_compact(w.inputs["gcmkw"], w.k["oct16"], registry=w.reg["jwe-all"]).plaintext)
     cons("dec-1pu", lambda w: jwe.decrypt_compact(w.inputs["1pu"], w.k["ec"], registry=w.reg_1pu, sender_key=w.p["ec2"]).plaintext)
+    cons("dec-1pu-from-a", lambda w: jwe.decrypt_compact(w.inputs["1pu-from-a"], w.k["ec"], registry=w.reg_1pu, sender_key=w.p["peerA"]).plaintext)
+    cons("dec-1pu-from-b", lambda w: jwe.decrypt_compact(w.inputs["1pu-from-b"], w.k["ec"], registry=w.reg_1pu, sender_key=w.p["peerB"]).plaintext)
+    cons("dec-1pu-from-b-with-a", lambda w: jwe.decrypt_compact(w.inputs["1pu-from-b"], w.k["ec"], registry=w.reg_1pu, sender_key=w.p["peerA"]).plaintext)
     cons("dec-1pu-no-sender", lambda w: jwe.decrypt_compact(w.inputs["1pu"], w.k["ec"], registry=w.reg_1pu).plaintext)
     cons("dec-flat-aad", lambda w: (lambda o: [o.plaintext.decode(), o.aad.decode()])(jwe.decrypt_json(w.inputs["flat"], w.k["oct16"])))
     cons("jwt-decode-jwe", lambda w: jwt.decode(w.inputs["jwt-jwe"], w.k["oct16"], registry=w.reg["jwe-all"]).claims)
@@ -394,7 +411,7 @@ def canon(w: World, name: str, kind: str, result) -> tuple:
         return ("ok", "jwe-json", sorted(val), [r.get("header", {}).get("kid") for r in val["recipients"]])
     if kind == "jwe-flat":
         return ("ok", "jwe-flat", sorted(val), val.get("aad"), val.get("protected"), val.get("header"))
-    if kind == "jwe-1pu":
+    if kind.startswith("jwe-1pu"):
         hdr = json.loads(b64.dec(val.split(".")[0]))
         return ("ok", "jwe", {k: (v if k != "epk" else "<generated>") for k, v in hdr.items()})
     if kind == "jws-7797-json":
@@ -447,8 +464,9 @@ def check_product(w: World, name: str, kind: str, result) -> list[str]:
         v = rjwe.decrypt(val, lambda m, i: w.mat["oct16"])
         if not v.ok or v.plaintext != b"p-flat" or v.aad != b"aad-1":
             probs.append("flattened JWE with aad produced under concurrency does not decrypt at the reference peer: %s" % v.reason)
-    elif kind == "jwe-1pu":
-        v = rjwe.decrypt(val, lambda m, i: w.mat["ec"], lambda m, i: w.mat["ec2"].public())
+    elif kind.startswith("jwe-1pu"):
+        rcpt = w.mat[kind.split(":")[1]] if ":" in kind else w.mat["ec"]
+        v = rjwe.decrypt(val, lambda m, i: rcpt, lambda m, i: w.mat["ec2"].public())
         if not v.ok or v.plaintext != b"p-1pu":
             probs.append("ECDH-1PU token produced under concurrency does not decrypt at the reference peer: %s" % v.reason)
     elif kind == "jws-7797-json":
@@ -467,7 +485,7 @@ def fresh_values(name: str, kind: str, result) -> list[tuple[str, bytes]]:
     """per-call random values that must be pairwise distinct across producers"""
     status, val = result
     out = []
-    if status != "ok" or kind not in ("jwe", "jwe-set", "jwe-json", "jwe-flat", "jwe-1pu"):
+    if status != "ok" or kind.split(":")[0] not in ("jwe", "jwe-set", "jwe-json", "jwe-flat", "jwe-1pu"):
         return out
     if isinstance(val, str):
         p = val.split(".")
